@@ -196,7 +196,10 @@ func checkC05(p *Prog, r *Report) {
 	r.rule("C05.B4", "long-lived containers reachable from the entry points have a guard or an eviction at every insertion (acklist flush test, shard-set discard, shard duplicate test, accept backlog test, wrap-safe newest-group update)", 5)
 	r.rule("C05.B5", "no explicit panic is reachable from the entry points except the frozen, justified ones; unchecked type assertions agree with the static type of every value stored into the asserted container", 5)
 	r.rule("C05.B6", "every / and % with a non-constant divisor in the input-path functions has a positive divisor: a dominating fact, or a field whose every store is positive", 4)
+	r.rule("C05.B8", "the receive-side buffering limits hold for arbitrary (also window-ignoring) input: delivery queue and reorder heap admit only below rcv_wnd / inside the window (C04.W1, C04.W2)", 4)
 	r.rule("C05.B7", "arrays/slices indexed by x % N (or by an index only ever stored as (y+1) % N) are allocated with length N at every store", 4)
+	delegate(p, r, "C04", checkC04, "C04.W1", "C05.B8")
+	delegate(p, r, "C04", checkC04, "C04.W2", "C05.B8")
 
 	fns := inputPathFuncs(p)
 	is32 := p.Cfg.ID == "linux32"
